@@ -2,6 +2,7 @@
 from __future__ import annotations
 
 import itertools
+import random
 
 import corr
 import dets
@@ -44,6 +45,22 @@ def group_case(out: Outcome, rng, classes: list[str], share_cfg: bool, with_cb: 
     streams = [gen.stream_for(rng, c, n) for c, n in zip(classes, lens)]
     seed = rng.randint(0, 2**31 - 1)
 
+    def logs_key(logs):
+        """scalar content of the history callback's logs as returned by update()"""
+        if not logs or "h" not in logs:
+            return None
+        return {k: [repr(x) for x in v if isinstance(x, (bool, int, float, type(None), np.generic))] for k, v in logs["h"].items()}
+
+    pre_reset = rng.random() < 0.4     # every instance is used on a short stream and reset() before the run proper (state shared through reset paths)
+
+    def warm(rs):
+        if pre_reset:
+            for r, c in zip(rs, classes):
+                for x in gen.stream_for(random.Random(seed), c, 4):
+                    r.det.update(value=x)
+            for r in rs:
+                r.det.reset()
+
     def build():
         cfg = dets.make_config(classes[0], params[0]) if share_cfg else None
         rs = []
@@ -56,19 +73,31 @@ def group_case(out: Outcome, rng, classes: list[str], share_cfg: bool, with_cb: 
     alone = build()
     if any(r.det is None for r in alone):
         return
+    warm(alone)
     np.random.seed(seed)      # after construction: KSWINConfig re-seeds the global generator when it is built
+    alone_logs = []
     for r, xs in zip(alone, streams):
+        ll = []
         for x in xs:
-            r.update(x)
-    runners.extend(alone)
+            ll.append(logs_key(r.update(x)))
+        alone_logs.append(ll)
+    if not pre_reset:
+        runners.extend(alone)
     rep_base = {"classes": classes, "params": params, "shared_config": share_cfg, "history_callback": with_cb, "streams": streams}
     for sched in schedules(lens, rng, limit):
         rs = build()
+        warm(rs)
         np.random.seed(seed)
         pos = [0] * k
+        got_logs = [[] for _ in range(k)]
         for i in sched:
-            rs[i].update(streams[i][pos[i]])
+            got_logs[i].append(logs_key(rs[i].update(streams[i][pos[i]])))
             pos[i] += 1
+        if with_cb and got_logs != alone_logs:
+            i = next(j for j in range(k) if got_logs[j] != alone_logs[j])
+            out.violation(f"{classes[i]} (instance {i} of {classes}): the callback logs returned by update under an interleaved schedule differ from running alone",
+                          {**rep_base, "schedule": list(sched), "instance": i})
+            return
         for i, (a, b) in enumerate(zip(alone, rs)):
             if a.obs != b.obs:
                 j = next(t for t, (u, v) in enumerate(zip(a.obs, b.obs)) if u != v)
@@ -78,6 +107,7 @@ def group_case(out: Outcome, rng, classes: list[str], share_cfg: bool, with_cb: 
         out.count("schedules_run")
     # repeated run agrees exactly
     again = build()
+    warm(again)
     np.random.seed(seed)
     for r, xs in zip(again, streams):
         for x in xs:
